@@ -23,6 +23,12 @@ Proof.
   cbn. apply IH. lia.
 Qed.
 
+Lemma skipn_add {A} : forall k j (l : list A), skipn j (skipn k l) = skipn (k + j) l.
+Proof.
+  induction k as [|k IH]; intros j l; [reflexivity|].
+  destruct l as [|x l]; [cbn; apply skipn_nil|]. cbn. apply IH.
+Qed.
+
 Lemma skipn_last_one {A} : forall (l : list A), l <> [] -> exists x, skipn (length l - 1) l = [x] /\ In x l.
 Proof.
   intros l Hl. destruct (exists_last Hl) as [l' [a E]]. subst l. exists a. split.
@@ -73,6 +79,223 @@ Proof.
   cbn [starts]. destruct l as [|c l]; [reflexivity|].
   destruct (c =? x)%Z; [|reflexivity]. apply IH. cbn [length] in H. lia.
 Qed.
+
+(** * the first pass of parse_string on lists: index of the closing quote, number of escapes *)
+Fixpoint scan_l (l : bytes) : option (nat * nat) :=
+  match l with
+  | [] => None
+  | c :: r =>
+      if (c =? 34)%Z then Some (0, 0)
+      else if (c =? 92)%Z then
+        match r with
+        | [] => None
+        | _ :: r' => match scan_l r' with Some (n, k) => Some (S (S n), S k) | None => None end
+        end
+      else match scan_l r with Some (n, k) => Some (S n, k) | None => None end
+  end.
+
+Lemma scan_l_bound : forall m l n k, length l <= m -> scan_l l = Some (n, k) -> n < length l /\ 2 * k <= n.
+Proof.
+  induction m as [|m IH]; intros l n k Hm H.
+  - destruct l; [discriminate | cbn in Hm; lia].
+  - destruct l as [|c r]; [discriminate|]. cbn [scan_l] in H. cbn [length] in *.
+    destruct (c =? 34)%Z.
+    + inversion H; subst. lia.
+    + destruct (c =? 92)%Z.
+      * destruct r as [|e r']; [discriminate|].
+        destruct (scan_l r') as [[n' k']|] eqn:E; [|discriminate].
+        inversion H; subst. apply IH in E; [|cbn [length] in Hm; lia]. cbn [length]. lia.
+      * destruct (scan_l r) as [[n' k']|] eqn:E; [|discriminate].
+        inversion H; subst. apply IH in E; [|lia]. lia.
+Qed.
+
+Lemma scan_l_lt l n k : scan_l l = Some (n, k) -> n < length l /\ 2 * k <= n.
+Proof. apply (scan_l_bound (length l)). lia. Qed.
+
+Lemma scan_l_plain c r : c <> 34%Z -> c <> 92%Z ->
+  scan_l (c :: r) = match scan_l r with Some (n, k) => Some (S n, k) | None => None end.
+Proof.
+  intros H1 H2. cbn [scan_l].
+  destruct (Z.eqb_spec c 34); [contradiction|]. destruct (Z.eqb_spec c 92); [contradiction|]. reflexivity.
+Qed.
+
+Lemma hex_val_some x h : hex_val x = Some h -> x <> 34%Z /\ x <> 92%Z /\ (0 <= h < 16)%Z.
+Proof.
+  unfold hex_val. intro HH.
+  destruct ((48 <=? x) && (x <=? 57))%Z eqn:E1.
+  { apply andb_prop in E1. destruct E1 as [E1 E1']. apply Z.leb_le in E1, E1'. assert (h = x - 48)%Z by congruence. lia. }
+  destruct ((65 <=? x) && (x <=? 70))%Z eqn:E2.
+  { apply andb_prop in E2. destruct E2 as [E2 E2']. apply Z.leb_le in E2, E2'. assert (h = 10 + x - 65)%Z by congruence. lia. }
+  destruct ((97 <=? x) && (x <=? 102))%Z eqn:E3.
+  { apply andb_prop in E3. destruct E3 as [E3 E3']. apply Z.leb_le in E3, E3'. assert (h = 10 + x - 97)%Z by congruence. lia. }
+  discriminate.
+Qed.
+
+Lemma hex4_l_inv l v r : hex4_l l = Some (v, r) ->
+  exists a b c d, l = a :: b :: c :: d :: r /\
+    (a <> 34 /\ a <> 92)%Z /\ (b <> 34 /\ b <> 92)%Z /\ (c <> 34 /\ c <> 92)%Z /\ (d <> 34 /\ d <> 92)%Z /\
+    (0 <= v < 65536)%Z.
+Proof.
+  unfold hex4_l. destruct l as [|a [|b [|c [|d r']]]]; try discriminate.
+  destruct (hex_val a) as [ha|] eqn:Ea; [|discriminate].
+  destruct (hex_val b) as [hb|] eqn:Eb; [|discriminate].
+  destruct (hex_val c) as [hc|] eqn:Ec; [|discriminate].
+  destruct (hex_val d) as [hd|] eqn:Ed; [|discriminate].
+  intro H. inversion H; subst.
+  apply hex_val_some in Ea, Eb, Ec, Ed.
+  exists a, b, c, d. split; [reflexivity|]. repeat split; try tauto; lia.
+Qed.
+
+Lemma hex4_scan l v r2 : hex4_l l = Some (v, r2) ->
+  scan_l l = match scan_l r2 with Some (n, k) => Some (4 + n, k) | None => None end.
+Proof.
+  intro H. apply hex4_l_inv in H. destruct H as [a [b [c [d [E [[Ha1 Ha2] [[Hb1 Hb2] [[Hc1 Hc2] [[Hd1 Hd2] _]]]]]]]]].
+  subst l. rewrite !scan_l_plain by assumption. destruct (scan_l r2) as [[n k]|]; reflexivity.
+Qed.
+
+Lemma hex4_scan_short l n k : scan_l l = Some (n, k) -> n < 4 -> hex4_l l = None.
+Proof.
+  intros H Hn. destruct (hex4_l l) as [[v r2]|] eqn:E; [|reflexivity].
+  rewrite (hex4_scan _ _ _ E) in H. destruct (scan_l r2) as [[n2 k2]|]; [|discriminate].
+  inversion H. lia.
+Qed.
+
+Lemma utf8_encode_c_len cp b : utf8_encode_c cp = Some b -> length b <= 4.
+Proof.
+  unfold utf8_encode_c. destruct (cp <? 128)%Z; [intro H; inversion H; cbn; lia|].
+  destruct (cp <? 2048)%Z; [intro H; inversion H; cbn; lia|].
+  destruct (cp <? 65536)%Z; [intro H; inversion H; cbn; lia|].
+  destruct (cp <=? 1114111)%Z; [intro H; inversion H; cbn; lia|discriminate].
+Qed.
+
+(** one \u escape after the "\u": the UTF-8 bytes and the rest (the [u] branch of [str_l]) *)
+Definition u_esc_l (r' : bytes) : option (bytes * bytes) :=
+  match hex4_l r' with
+  | None => None
+  | Some (first_code, r2) =>
+      if ((56320 <=? first_code) && (first_code <=? 57343))%Z then None
+      else if ((55296 <=? first_code) && (first_code <=? 56319))%Z then
+        match r2 with
+        | c0 :: c1 :: r3 =>
+            if negb ((c0 =? 92) && (c1 =? 117))%Z then None
+            else
+              match hex4_l r3 with
+              | None => None
+              | Some (second_code, r4) =>
+                  if ((second_code <? 56320) || (second_code >? 57343))%Z then None
+                  else
+                    match utf8_encode_c (65536 + Z.lor (Z.shiftl (Z.land first_code 1023) 10) (Z.land second_code 1023))%Z with
+                    | Some b => Some (b, r4)
+                    | None => None
+                    end
+              end
+        | _ => None
+        end
+      else match utf8_encode_c first_code with Some b => Some (b, r2) | None => None end
+  end.
+
+Definition str_cont (f : nat) (x : option (bytes * bytes)) : option (bytes * bytes) :=
+  match x with
+  | Some (b, rN) => match str_l f rN with Some (o, rest) => Some (b ++ o, rest) | None => None end
+  | None => None
+  end.
+
+(** unfolding of [str_l] with the \u branch folded into [u_esc_l] *)
+Lemma str_l_S f l :
+  str_l (S f) l =
+  match l with
+  | [] => None
+  | c :: r =>
+      if (c =? 34)%Z then Some ([], r)
+      else if (c =? 92)%Z then
+        match r with
+        | [] => None
+        | e :: r' =>
+            if (e =? 98)%Z then str_cont f (Some ([8%Z], r'))
+            else if (e =? 102)%Z then str_cont f (Some ([12%Z], r'))
+            else if (e =? 110)%Z then str_cont f (Some ([10%Z], r'))
+            else if (e =? 114)%Z then str_cont f (Some ([13%Z], r'))
+            else if (e =? 116)%Z then str_cont f (Some ([9%Z], r'))
+            else if ((e =? 34) || (e =? 92) || (e =? 47))%Z then str_cont f (Some ([e], r'))
+            else if (e =? 117)%Z then str_cont f (u_esc_l r')
+            else None
+        end
+      else str_cont f (Some ([c], r))
+  end.
+Proof.
+  cbn [str_l]. destruct l as [|c r]; [reflexivity|].
+  destruct (c =? 34)%Z; [reflexivity|]. destruct (c =? 92)%Z; [|reflexivity].
+  destruct r as [|e r']; [reflexivity|].
+  destruct (e =? 98)%Z; [reflexivity|]. destruct (e =? 102)%Z; [reflexivity|].
+  destruct (e =? 110)%Z; [reflexivity|]. destruct (e =? 114)%Z; [reflexivity|].
+  destruct (e =? 116)%Z; [reflexivity|]. destruct ((e =? 34) || (e =? 92) || (e =? 47))%Z; [reflexivity|].
+  destruct (e =? 117)%Z; [|reflexivity].
+  unfold u_esc_l, str_cont. destruct (hex4_l r') as [[fc r2]|]; [|reflexivity].
+  destruct ((56320 <=? fc) && (fc <=? 57343))%Z; [reflexivity|].
+  destruct ((55296 <=? fc) && (fc <=? 56319))%Z.
+  - destruct r2 as [|c0 [|c1 r3]]; try reflexivity.
+    destruct (negb ((c0 =? 92) && (c1 =? 117))%Z); [reflexivity|].
+    destruct (hex4_l r3) as [[sc r4]|]; [|reflexivity].
+    destruct ((sc <? 56320) || (sc >? 57343))%Z; [reflexivity|].
+    destruct (utf8_encode_c _); reflexivity.
+  - destruct (utf8_encode_c fc); reflexivity.
+Qed.
+
+(** a \u escape is 4 or 10 more bytes without quote or backslash at scan positions *)
+Lemma u_esc_scan r' b rN : u_esc_l r' = Some (b, rN) ->
+  length b <= 4 /\
+  exists m j, ((m = 4 /\ j = 0) \/ (m = 10 /\ j = 1)) /\
+    scan_l r' = match scan_l rN with Some (n, k) => Some (m + n, j + k) | None => None end.
+Proof.
+  unfold u_esc_l. destruct (hex4_l r') as [[fc r2]|] eqn:E1; [|discriminate].
+  destruct ((56320 <=? fc) && (fc <=? 57343))%Z; [discriminate|].
+  destruct ((55296 <=? fc) && (fc <=? 56319))%Z.
+  - destruct r2 as [|c0 [|c1 r3]]; try discriminate.
+    destruct (Z.eqb_spec c0 92) as [E0|E0]; cbn [andb negb]; [|discriminate].
+    destruct (c1 =? 117)%Z; cbn [negb]; [|discriminate].
+    destruct (hex4_l r3) as [[sc r4]|] eqn:E2; [|discriminate].
+    destruct ((sc <? 56320) || (sc >? 57343))%Z; [discriminate|].
+    destruct (utf8_encode_c _) as [b'|] eqn:E3; [|discriminate].
+    intro H. inversion H; subst b' r4 c0. split; [eapply utf8_encode_c_len; exact E3|].
+    exists 10, 1. split; [right; split; reflexivity|].
+    rewrite (hex4_scan _ _ _ E1). cbn [scan_l]. cbn [Z.eqb Pos.eqb].
+    rewrite (hex4_scan _ _ _ E2). destruct (scan_l rN) as [[n k]|]; reflexivity.
+  - destruct (utf8_encode_c fc) as [b'|] eqn:E3; [|discriminate].
+    intro H. inversion H; subst b' r2. split; [eapply utf8_encode_c_len; exact E3|].
+    exists 4, 0. split; [left; split; reflexivity|].
+    rewrite (hex4_scan _ _ _ E1). destruct (scan_l rN) as [[n k]|]; reflexivity.
+Qed.
+
+(** no closing quote at a scan position: the specification rejects too *)
+Lemma scan_none_str : forall f l, scan_l l = None -> str_l f l = None.
+Proof.
+  induction f as [|f IH]; intros l H; [reflexivity|].
+  rewrite str_l_S. destruct l as [|c r]; [reflexivity|]. cbn [scan_l] in H.
+  destruct (c =? 34)%Z; [discriminate|]. destruct (c =? 92)%Z.
+  - destruct r as [|e r']; [reflexivity|].
+    destruct (scan_l r') as [[n k]|] eqn:E; [discriminate|].
+    assert (Hs : forall b, str_cont f (Some (b, r')) = None).
+    { intro b. cbn [str_cont]. rewrite (IH _ E). reflexivity. }
+    destruct (e =? 98)%Z; [apply Hs|]. destruct (e =? 102)%Z; [apply Hs|].
+    destruct (e =? 110)%Z; [apply Hs|]. destruct (e =? 114)%Z; [apply Hs|].
+    destruct (e =? 116)%Z; [apply Hs|]. destruct ((e =? 34) || (e =? 92) || (e =? 47))%Z; [apply Hs|].
+    destruct (e =? 117)%Z; [|reflexivity].
+    destruct (u_esc_l r') as [[b rN]|] eqn:Eu; [|reflexivity].
+    apply u_esc_scan in Eu. destruct Eu as [_ [m [j [_ Eu]]]]. rewrite E in Eu.
+    destruct (scan_l rN) as [[n k]|] eqn:EN; [discriminate|].
+    cbn [str_cont]. rewrite (IH _ EN). reflexivity.
+  - destruct (scan_l r) as [[n k]|] eqn:E; [discriminate|].
+    cbn [str_cont]. rewrite (IH _ E). reflexivity.
+Qed.
+
+Lemma number_run_length : forall n l, length (number_run n l) <= length l.
+Proof.
+  induction n as [|n IH]; intros l; cbn [number_run]; [cbn; lia|].
+  destruct l as [|c r]; [cbn; lia|]. destruct (number_byte c); cbn [length]; [|lia].
+  specialize (IH r). lia.
+Qed.
+
+Definition is_some {A} (o : option A) : bool := match o with Some _ => true | None => false end.
 
 Section Refine.
   Variable strtod : bytes -> option (dbl * nat).
@@ -135,7 +358,7 @@ Section Refine.
   Lemma sfx_skipn k l j : sfx k l -> j <= length l -> sfx (k + j) (skipn j l).
   Proof.
     intros H Hj. pose proof (sfx_length _ _ H) as E. destruct H as [Hk Hs]. split; [lia|].
-    subst l. rewrite skipn_skipn. f_equal. lia.
+    subst l. symmetry. apply skipn_add.
   Qed.
 
   Lemma sfx_0 : sfx 0 L.
@@ -213,6 +436,316 @@ Section Refine.
     - left. unfold ParseDefs.can_access. apply Nat.ltb_ge. lia.
     - right. split; [eapply can_access0_cons; exact H|]. exists c. split; [|exact Hc].
       apply sfx_cons in H. apply H.
+  Qed.
+
+  (** * results of the sub-parsers: the model returns the tree the specification returns and
+      its offset designates the specification's rest; [n] bounds the rest *)
+  Definition sim_res {A} (r : res (option A * pst)) (sp : option (A * bytes)) (d : Z) (n : nat) : Prop :=
+    match sp with
+    | Some (t, rest) => exists s', r = Ok (Some t, s') /\ sfx (off s') rest /\ dep s' = d /\ length rest < n
+    | None => exists s', r = Ok (None, s')
+    end.
+
+  (** * literals *)
+  Lemma match_lit_sim : forall lit k l, sfx k l -> length lit <= length l ->
+    match_lit k lit = Ok (is_some (starts lit l)).
+  Proof.
+    induction lit as [|x lit IH]; intros k l Hs Hl; cbn [ParseDefs.match_lit starts]; [reflexivity|].
+    destruct l as [|c r]; [cbn in Hl; lia|].
+    destruct (sfx_cons _ _ _ Hs) as [_ [Hrd Hr]]. rewrite Hrd. cbn [bind].
+    destruct (c =? x)%Z; [|reflexivity]. apply IH; [exact Hr | cbn in Hl; lia].
+  Qed.
+
+  Lemma lit_test_sim s l lit n : sfx (off s) l -> n = length lit ->
+    (if can_read s n then match_lit (off s) lit else Ok false) = Ok (is_some (starts lit l)).
+  Proof.
+    intros Hs Hn. pose proof (sfx_length _ _ Hs) as Hl. destruct Hs as [Hk Hs']. unfold ParseDefs.can_read.
+    destruct (Nat.leb_spec (off s + n) len) as [H|H].
+    - apply match_lit_sim; [split; assumption | lia].
+    - rewrite starts_short by lia. reflexivity.
+  Qed.
+
+  Lemma starts_sfx lit k l r : sfx k l -> starts lit l = Some r ->
+    sfx (k + length lit) r /\ length l = length lit + length r.
+  Proof.
+    intros Hs H. apply starts_app in H. subst l.
+    pose proof (sfx_skipn _ _ (length lit) Hs) as H0.
+    rewrite skipn_app, skipn_all, Nat.sub_diag in H0. cbn [skipn app] in H0.
+    rewrite app_length. split; [apply H0; rewrite app_length; lia | reflexivity].
+  Qed.
+
+  (** * numbers *)
+  Lemma number_copy_sim : forall fuel s i l, sfx (off s + i) l ->
+    number_copy fuel s i = Ok (number_run fuel l).
+  Proof.
+    induction fuel as [|f IH]; intros s i l Hs; cbn [ParseDefs.number_copy number_run]; [reflexivity|].
+    unfold ParseDefs.can_access. destruct l as [|c r].
+    - apply sfx_nil in Hs. destruct (Nat.ltb_spec (off s + i) len); [lia | reflexivity].
+    - destruct (sfx_cons _ _ _ Hs) as [Hlt [Hrd Hr]].
+      destruct (Nat.ltb_spec (off s + i) len); [|lia].
+      rewrite Hrd. cbn [bind]. destruct (number_byte c); [|reflexivity].
+      rewrite (IH s (S i) r); [reflexivity|]. rewrite Nat.add_succ_r. exact Hr.
+  Qed.
+
+  Lemma parse_number_sim s l : sfx (off s) l ->
+    sim_res (parse_number s) (number_l strtod l) (dep s) (length l).
+  Proof.
+    intros Hs. unfold ParseDefs.parse_number, number_l.
+    rewrite (number_copy_sim _ s 0 l) by (rewrite Nat.add_0_r; exact Hs). cbn [bind].
+    destruct (strtod (number_run (Z.to_nat (c_NUMBER_C_STRING_SIZE - 1)) l)) as [[d k]|] eqn:E; cbn [sim_res].
+    - apply Hstrtod in E. pose proof (number_run_length (Z.to_nat (c_NUMBER_C_STRING_SIZE - 1)) l) as Hl.
+      exists (add_off s k). split; [reflexivity|]. cbn [add_off set_off off dep].
+      split; [apply sfx_skipn; [exact Hs | lia]|]. split; [reflexivity|].
+      rewrite skipn_length. lia.
+    - exists s. reflexivity.
+  Qed.
+
+  (** * hexadecimal escapes *)
+  Lemma rd4 i a b c d r : sfx i (a :: b :: c :: d :: r) ->
+    rdb i = Ok a /\ rdb (i + 1) = Ok b /\ rdb (i + 2) = Ok c /\ rdb (i + 3) = Ok d /\ sfx (i + 4) r.
+  Proof.
+    intros H0. destruct (sfx_cons _ _ _ H0) as [_ [Ha H1]]. destruct (sfx_cons _ _ _ H1) as [_ [Hb H2]].
+    destruct (sfx_cons _ _ _ H2) as [_ [Hc H3]]. destruct (sfx_cons _ _ _ H3) as [_ [Hd H4]].
+    replace (i + 1) with (S i) by lia. replace (i + 2) with (S (S i)) by lia.
+    replace (i + 3) with (S (S (S i))) by lia. replace (i + 4) with (S (S (S (S i)))) by lia.
+    tauto.
+  Qed.
+
+  Lemma is_hex4_sim i a b c d r : sfx i (a :: b :: c :: d :: r) ->
+    is_hex4 i = Ok (is_some (hex4_l (a :: b :: c :: d :: r))).
+  Proof.
+    intros H. destruct (rd4 _ _ _ _ _ _ H) as [Ha [Hb [Hc [Hd _]]]].
+    unfold ParseDefs.is_hex4, hex4_l. rewrite Ha, Hb, Hc, Hd. cbn [bind].
+    destruct (hex_val a), (hex_val b), (hex_val c), (hex_val d); reflexivity.
+  Qed.
+
+  Lemma parse_hex4_sim i a b c d r : sfx i (a :: b :: c :: d :: r) ->
+    parse_hex4 i = Ok (match hex4_l (a :: b :: c :: d :: r) with Some (v, _) => v | None => 0%Z end).
+  Proof.
+    intros H. destruct (rd4 _ _ _ _ _ _ H) as [Ha [Hb [Hc [Hd _]]]].
+    unfold ParseDefs.parse_hex4, hex4_l. rewrite Ha. cbn [bind].
+    destruct (hex_val a); [|reflexivity]. rewrite Hb. cbn [bind].
+    destruct (hex_val b); [|reflexivity]. rewrite Hc. cbn [bind].
+    destruct (hex_val c); [|reflexivity]. rewrite Hd. cbn [bind].
+    destruct (hex_val d); reflexivity.
+  Qed.
+
+  Lemma long4 {A} (l : list A) n : n < length l -> 4 <= n -> exists a b c d r, l = a :: b :: c :: d :: r.
+  Proof.
+    intros H H4. destruct l as [|a [|b [|c [|d r]]]]; cbn [length] in H; try lia.
+    exists a, b, c, d, r. reflexivity.
+  Qed.
+
+  (** utf16_literal_to_utf8 at a backslash-u whose tail [r'] is a scan position *)
+  Lemma utf16_sim ip ie c e r' n' k' :
+    sfx ip (c :: e :: r') -> scan_l r' = Some (n', k') -> ie = ip + S (S n') ->
+    match u_esc_l r' with
+    | Some (b, rN) => exists seq nN kN,
+        utf16_literal_to_utf8 ip ie = Ok (Some (seq, b)) /\ sfx (ip + seq) rN /\
+        scan_l rN = Some (nN, kN) /\ S (S n') = seq + nN /\ length b + S k' <= seq + kN /\ 6 <= seq /\ length b <= 4
+    | None => utf16_literal_to_utf8 ip ie = Ok None
+    end.
+  Proof.
+    intros Hs Hsc Hie.
+    assert (Hr' : sfx (ip + 2) r').
+    { destruct (sfx_cons _ _ _ Hs) as [_ [_ H1]]. destruct (sfx_cons _ _ _ H1) as [_ [_ H2]].
+      replace (ip + 2) with (S (S ip)) by lia. exact H2. }
+    pose proof (scan_l_lt _ _ _ Hsc) as [Hn'len _].
+    unfold ParseDefs.utf16_literal_to_utf8, u_esc_l.
+    replace (ie - ip) with (S (S n')) by lia.
+    destruct (hex4_l r') as [[fc r2]|] eqn:Eh.
+    - (* four hex digits *)
+      pose proof (hex4_scan _ _ _ Eh) as Hsc2. rewrite Hsc in Hsc2.
+      destruct (scan_l r2) as [[n2 k2]|] eqn:Esc2; [|discriminate].
+      injection Hsc2 as Hn2 Hk2. subst n' k'.
+      destruct (hex4_l_inv _ _ _ Eh) as [a [b [c' [d [El [_ [_ [_ [_ Hfc]]]]]]]]]. subst r'.
+      destruct (Nat.ltb_spec (S (S (4 + n2))) 6) as [Hlt|_]; [lia|].
+      rewrite (is_hex4_sim _ _ _ _ _ _ Hr'), Eh. cbn [is_some bind negb].
+      rewrite (parse_hex4_sim _ _ _ _ _ _ Hr'), Eh. cbn [bind].
+      assert (Hr2 : sfx (ip + 6) r2).
+      { destruct (rd4 _ _ _ _ _ _ Hr') as [_ [_ [_ [_ H4]]]]. replace (ip + 6) with (ip + 2 + 4) by lia. exact H4. }
+      destruct ((56320 <=? fc) && (fc <=? 57343))%Z; [reflexivity|].
+      destruct ((55296 <=? fc) && (fc <=? 56319))%Z.
+      + (* surrogate pair *)
+        replace (ie - (ip + 6)) with n2 by lia.
+        pose proof (scan_l_lt _ _ _ Esc2) as [Hn2len _].
+        destruct r2 as [|c0 [|c1 r3]].
+        * cbn [length] in Hn2len. lia.
+        * cbn [length] in Hn2len. destruct (Nat.ltb_spec n2 6); [reflexivity | lia].
+        * destruct (sfx_cons _ _ _ Hr2) as [_ [Hc0 Hr2']]. destruct (sfx_cons _ _ _ Hr2') as [_ [Hc1 Hr3]].
+          destruct (Nat.ltb_spec n2 6) as [Hlt|Hge].
+          { (* too short for a second sequence: the specification rejects as well *)
+            destruct (Z.eqb_spec c0 92) as [E0|E0]; cbn [andb negb]; [|reflexivity].
+            destruct (c1 =? 117)%Z; cbn [negb]; [|reflexivity].
+            subst c0. cbn [scan_l] in Esc2. cbn [Z.eqb Pos.eqb] in Esc2.
+            destruct (scan_l r3) as [[n3 k3]|] eqn:Esc3; [|discriminate].
+            injection Esc2 as Hn3 Hk3.
+            rewrite (hex4_scan_short _ _ _ Esc3) by lia. reflexivity. }
+          rewrite Hc0. cbn [bind].
+          destruct (Z.eqb_spec c0 92) as [E0|E0]; cbn [andb negb]; [|reflexivity].
+          replace (ip + 6 + 1) with (S (ip + 6)) by lia. rewrite Hc1. cbn [bind].
+          destruct (c1 =? 117)%Z; cbn [negb]; [|reflexivity].
+          subst c0. cbn [scan_l] in Esc2. cbn [Z.eqb Pos.eqb] in Esc2.
+          destruct (scan_l r3) as [[n3 k3]|] eqn:Esc3; [|discriminate].
+          injection Esc2 as Hn3 Hk3. subst n2 k2.
+          pose proof (scan_l_lt _ _ _ Esc3) as [Hn3len _].
+          destruct (long4 r3 n3 Hn3len) as [a2 [b2 [c2 [d2 [r4 Er3]]]]]; [lia|]. subst r3.
+          replace (ip + 6 + 2) with (S (S (ip + 6))) by lia.
+          rewrite (parse_hex4_sim _ _ _ _ _ _ Hr3). cbn [bind].
+          destruct (hex4_l (a2 :: b2 :: c2 :: d2 :: r4)) as [[sc r4']|] eqn:Eh2; [|reflexivity].
+          pose proof (hex4_scan _ _ _ Eh2) as Hsc4. rewrite Esc3 in Hsc4.
+          destruct (scan_l r4') as [[n4 k4]|] eqn:Esc4; [|discriminate].
+          injection Hsc4 as Hn4 Hk4. subst n3 k3.
+          destruct (hex4_l_inv _ _ _ Eh2) as [a3 [b3 [c3 [d3 [El2 _]]]]]. injection El2 as _ _ _ _ Er4. subst r4'.
+          destruct ((sc <? 56320) || (sc >? 57343))%Z; [reflexivity|].
+          destruct (utf8_encode_c _) as [bb|] eqn:Eu; [|reflexivity].
+          exists 12, n4, k4. split; [reflexivity|]. pose proof (utf8_encode_c_len _ _ Eu) as Hbb.
+          split.
+          { destruct (rd4 _ _ _ _ _ _ Hr3) as [_ [_ [_ [_ H4]]]].
+            replace (ip + 12) with (S (S (ip + 6)) + 4) by lia. exact H4. }
+          split; [reflexivity|]. lia.
+      + destruct (utf8_encode_c fc) as [bb|] eqn:Eu; [|reflexivity].
+        exists 6, n2, k2. split; [reflexivity|]. pose proof (utf8_encode_c_len _ _ Eu) as Hbb.
+        split; [exact Hr2|]. split; [exact Esc2|]. lia.
+    - (* not four hex digits *)
+      destruct (Nat.ltb_spec (S (S n')) 6) as [Hlt|Hge]; [reflexivity|].
+      destruct (long4 r' n' Hn'len) as [a [b [c' [d [r2 El]]]]]; [lia|]. subst r'.
+      rewrite (is_hex4_sim _ _ _ _ _ _ Hr'), Eh. reflexivity.
+  Qed.
+
+  (** * strings: first pass *)
+  Lemma string_scan_sim : forall fuel ie sk l, sfx ie l -> length l < fuel ->
+    string_scan fuel ie sk =
+    Ok (match scan_l l with Some (n, k) => Some (ie + n, sk + k) | None => None end).
+  Proof.
+    induction fuel as [|f IH]; intros ie sk l Hs Hf; [lia|].
+    cbn [ParseDefs.string_scan]. destruct l as [|c r].
+    - apply sfx_nil in Hs. destruct (Nat.ltb_spec ie len); [lia | reflexivity].
+    - destruct (sfx_cons _ _ _ Hs) as [Hlt [Hrd Hr]]. destruct (Nat.ltb_spec ie len); [|lia].
+      rewrite Hrd. cbn [bind scan_l length] in *. destruct (c =? 34)%Z.
+      + rewrite !Nat.add_0_r. reflexivity.
+      + destruct (c =? 92)%Z.
+        * destruct r as [|e r'].
+          -- apply sfx_nil in Hr. destruct (Nat.leb_spec len (ie + 1)); [reflexivity | lia].
+          -- destruct (sfx_cons _ _ _ Hr) as [Hlt2 [_ Hr']].
+             destruct (Nat.leb_spec len (ie + 1)); [lia|].
+             rewrite (IH (ie + 2) (S sk) r'); [| replace (ie + 2) with (S (S ie)) by lia; exact Hr' | cbn [length] in Hf; lia].
+             destruct (scan_l r') as [[n k]|]; [|reflexivity]. do 3 f_equal; lia.
+        * rewrite (IH (ie + 1) sk r); [| replace (ie + 1) with (S ie) by lia; exact Hr | lia].
+          destruct (scan_l r) as [[n k]|]; [|reflexivity]. do 3 f_equal; lia.
+  Qed.
+
+  (** * strings: second pass.  [l] is a scan position [n] bytes before the closing quote with
+      [k] escapes to go; the output never exceeds the capacity *)
+  Lemma put_ok cap out b : length out + length b <= cap -> put cap out b = Ok (out ++ b).
+  Proof. intro H. unfold put. destruct (Nat.leb_spec (length out + length b) cap); [reflexivity | lia]. Qed.
+
+  Lemma string_decode_sim : forall fuel fs cap ie ip l n k out,
+    sfx ip l -> scan_l l = Some (n, k) -> ie = ip + n -> n < fuel -> n < fs ->
+    length out + n + 1 <= cap + k ->
+    match str_l fs l with
+    | Some (o, rest) => string_decode fuel cap ip ie out = Ok (inl (out ++ o)) /\ sfx (S ie) rest
+    | None => exists p, string_decode fuel cap ip ie out = Ok (inr p)
+    end.
+  Proof.
+    induction fuel as [|f IH]; intros fs cap ie ip l n k out Hs Hsc Hie Hn Hfs Hcap; [lia|].
+    destruct fs as [|fs]; [lia|].
+    destruct l as [|c r]; [discriminate|].
+    destruct (sfx_cons _ _ _ Hs) as [Hlt [Hrd Hr]].
+    pose proof (scan_l_lt _ _ _ Hsc) as [_ Hk2].
+    rewrite str_l_S. cbn [ParseDefs.string_decode]. cbn [scan_l] in Hsc.
+    (* continuation after one decoded unit [b] of [seq] input bytes *)
+    assert (Hcont : forall b seq rN nN kN,
+      sfx (ip + seq) rN -> scan_l rN = Some (nN, kN) -> n = seq + nN -> 1 <= seq ->
+      length b + k <= seq + kN -> length out + length b <= cap ->
+      match str_cont fs (Some (b, rN)) with
+      | Some (o, rest) =>
+          (o' <- put cap out b ;; string_decode f cap (ip + seq) ie o') = Ok (inl (out ++ o)) /\ sfx (S ie) rest
+      | None => exists p, (o' <- put cap out b ;; string_decode f cap (ip + seq) ie o') = Ok (inr p)
+      end).
+    { intros b seq rN nN kN HsN HscN HnN Hseq Hbk Hput. rewrite (put_ok _ _ _ Hput). cbn [bind str_cont].
+      pose proof (IH fs cap ie (ip + seq) rN nN kN (out ++ b) HsN HscN) as H.
+      rewrite app_length in H. specialize (H ltac:(lia) ltac:(lia) ltac:(lia) ltac:(lia)).
+      destruct (str_l fs rN) as [[o rest]|].
+      - rewrite app_assoc. exact H.
+      - exact H. }
+    destruct (c =? 34)%Z eqn:E34.
+    - injection Hsc as Hn0 Hk0. subst n k. rewrite Nat.add_0_r in Hie. subst ie.
+      rewrite Nat.ltb_irrefl. rewrite put_ok by (cbn [length]; lia). cbn [bind].
+      rewrite app_nil_r. split; [reflexivity | exact Hr].
+    - destruct (c =? 92)%Z eqn:E92.
+      + destruct r as [|e r']; [discriminate|].
+        destruct (scan_l r') as [[n' k']|] eqn:Esc'; [|discriminate].
+        injection Hsc as Hn0 Hk0. subst n k.
+        destruct (sfx_cons _ _ _ Hr) as [_ [Hrde Hr']].
+        destruct (Nat.ltb_spec ip ie); [|lia].
+        rewrite Hrd. cbn [bind]. rewrite E92. cbn [negb].
+        replace (ip + 1) with (S ip) by lia. rewrite Hrde. cbn [bind].
+        assert (Hsimple : forall x,
+          match str_cont fs (Some ([x], r')) with
+          | Some (o, rest) =>
+              (o' <- put cap out [x] ;; string_decode f cap (ip + 2) ie o') = Ok (inl (out ++ o)) /\ sfx (S ie) rest
+          | None => exists p, (o' <- put cap out [x] ;; string_decode f cap (ip + 2) ie o') = Ok (inr p)
+          end).
+        { intro x. apply (Hcont [x] 2 r' n' k').
+          - replace (ip + 2) with (S (S ip)) by lia. exact Hr'.
+          - exact Esc'.
+          - lia.
+          - lia.
+          - cbn [length]. lia.
+          - cbn [length]. lia. }
+        destruct (e =? 98)%Z; [apply Hsimple|]. destruct (e =? 102)%Z; [apply Hsimple|].
+        destruct (e =? 110)%Z; [apply Hsimple|]. destruct (e =? 114)%Z; [apply Hsimple|].
+        destruct (e =? 116)%Z; [apply Hsimple|].
+        destruct ((e =? 34) || (e =? 92) || (e =? 47))%Z; [apply Hsimple|].
+        destruct (e =? 117)%Z.
+        * pose proof (utf16_sim ip ie c e r' n' k' Hs Esc' Hie) as Hu.
+          destruct (u_esc_l r') as [[b rN]|].
+          -- destruct Hu as [seq [nN [kN [Eu [HsN [HscN [Hnn [Hbk [Hseq Hb4]]]]]]]]].
+             rewrite Eu. cbn [bind].
+             apply (Hcont b seq rN nN kN HsN HscN); lia.
+          -- rewrite Hu. cbn [bind str_cont]. exists ip. reflexivity.
+        * cbn [str_cont]. exists ip. reflexivity.
+      + destruct (scan_l r) as [[n' k']|] eqn:Esc'; [|discriminate].
+        injection Hsc as Hn0 Hk0. subst n k.
+        destruct (Nat.ltb_spec ip ie); [|lia].
+        rewrite Hrd. cbn [bind]. rewrite E92. cbn [negb].
+        replace (S ip) with (ip + 1) by lia.
+        apply (Hcont [c] 1 r n' k').
+        * replace (ip + 1) with (S ip) by lia. exact Hr.
+        * exact Esc'.
+        * lia.
+        * lia.
+        * cbn [length]. lia.
+        * cbn [length]. lia.
+  Qed.
+
+  (** * parse_string at a byte [c] (the caller has checked that the offset is readable) *)
+  Lemma parse_string_sim s c r : sfx (off s) (c :: r) ->
+    sim_res (parse_string s) (if (c =? 34)%Z then string_l r else None) (dep s) (length (c :: r)).
+  Proof.
+    intros Hs. destruct (sfx_cons _ _ _ Hs) as [Hlt [Hrd Hr]].
+    unfold ParseDefs.parse_string. rewrite Hrd. cbn [bind].
+    destruct (c =? 34)%Z; cbn [negb]; [|eexists; reflexivity].
+    pose proof (sfx_length _ _ Hr) as Hlr.
+    rewrite (string_scan_sim (S len) (off s + 1) 0 r);
+      [| replace (off s + 1) with (S (off s)) by lia; exact Hr | lia].
+    cbn [bind]. unfold string_l.
+    destruct (scan_l r) as [[n k]|] eqn:Esc.
+    - pose proof (scan_l_lt _ _ _ Esc) as [Hnl Hk2].
+      cbn [ParseDefs.alloc never_fails negb]. cbv beta iota.
+      pose proof (string_decode_sim (S len) (S (length r)) (off s + 1 + n - off s - (0 + k) + 1)
+                    (off s + 1 + n) (off s + 1) r n k []) as H.
+      specialize (H ltac:(replace (off s + 1) with (S (off s)) by lia; exact Hr) Esc eq_refl
+                    ltac:(lia) ltac:(lia) ltac:(cbn [length]; lia)).
+      destruct (str_l (S (length r)) r) as [[o rest]|]; cbn [sim_res].
+      + destruct H as [Ed Hrest]. rewrite Ed. cbn [bind app].
+        eexists. split; [reflexivity|]. cbn [set_off off dep].
+        split; [replace (off s + 1 + n + 1) with (S (off s + 1 + n)) by lia; exact Hrest|].
+        split; [reflexivity|].
+        pose proof (sfx_length _ _ Hrest). cbn [length]. lia.
+      + destruct H as [p Ed]. rewrite Ed. cbn [bind]. eexists. reflexivity.
+    - rewrite (scan_none_str _ _ Esc). cbn [sim_res]. eexists. reflexivity.
   Qed.
 
 End Refine.
